@@ -631,4 +631,78 @@ theorem gen_instance :
 
 end generated
 
+section Audit
+/-! ## Audit (g27): the injectivity hypothesis `hinj` on `jr.split` (which carries the "independent randomness" clause) had no instance; broadcast corner cases through the theorems (not only by evaluation) -/
+open Pw GenDist VectorizeGen
+
+/-- the split used by `keys_distinct_instance` / `gen_instance` (`jr.split(k, n)[j] = (k.1, n, j)`) satisfies the injectivity
+hypothesis `hinj` that carries the "independent randomness" clause -/
+theorem hinj_audit_instance :
+    ∀ (k : Nat × Nat × Nat) (n i j : Nat), i < n → j < n →
+      (fun (k : Nat × Nat × Nat) n j => (k.1, n, j)) k n i = (fun (k : Nat × Nat × Nat) n j => (k.1, n, j)) k n j → i = j := by
+  intro k n i j _ _ h
+  simp only [Prod.mk.injEq] at h
+  exact h.2.2
+
+/-- `keys_distinct` + `sample_elements_use_distinct_keys` instantiated with that split: sample_shape (2,), a condition of batch
+shape (3,1) and scalar cond_shape `()` (rank-0 corner: `-0 or None`), a sampler that returns its key -/
+theorem keys_distinct_audit_instance :
+    (∃ keys, sampleKeys (Key := Nat × Nat × Nat) (fun k n j => (k.1, n, j)) (7, 0, 0) [2, 3, 1] = .ok keys ∧
+      ∀ i j, ValidIdx [2, 3, 1] i → ValidIdx [2, 3, 1] j → keys.slice i = keys.slice j → i = j) ∧
+    (∃ (out : Batched (Nat × Nat × Nat)) (keyOf : List Nat → Nat × Nat × Nat),
+      sampleWithCond (C := Nat) [] (fun k _ => k) (fun k n j => (k.1, n, j)) (7, 0, 0) [2] (some ⟨[3, 1], fun _ => 0⟩) = .ok out ∧
+      out.loop = [2, 3, 1] ∧ out.elem [1, 2, 0] = (7, 6, 5) ∧ (∀ i, ValidIdx out.loop i → out.elem i = keyOf i) ∧
+      ∀ i j, ValidIdx out.loop i → ValidIdx out.loop j → keyOf i = keyOf j → i = j) := by
+  constructor
+  · obtain ⟨keys, hk, -, -, -, -, hd⟩ := keys_distinct (fun (k : Nat × Nat × Nat) n j => (k.1, n, j)) hinj_audit_instance (7, 0, 0) [2, 3, 1]
+    exact ⟨keys, hk, hd⟩
+  · obtain ⟨out, hout⟩ := (sample_accepts_iff (C := Nat) [] [2] (fun (k : Nat × Nat × Nat) _ => k) (fun k n j => (k.1, n, j)) (7, 0, 0)
+      ⟨[3, 1], fun _ => 0⟩).1.2 ⟨[3, 1], rfl⟩
+    obtain ⟨keyOf, cb, hc, hl, he, hd⟩ := sample_elements_use_distinct_keys _ hinj_audit_instance [] [2] _ (7, 0, 0) _ out hout
+    have hcb : cb = [3, 1] := by simpa using hc.symm
+    subst hcb
+    refine ⟨out, keyOf, hout, hl, ?_, he, hd⟩
+    have h2 := hout
+    rw [sampleWithCond_eq [] [2] [3, 1] _ _ _ _ rfl] at h2
+    cases h2
+    decide
+
+/-- `log_prob_accepts_iff` right-to-left and `batched_eq_elementwise_log_prob` on the accepted call: event shape `()`,
+cond_shape `()` (both rank 0), x of batch shape (2,1), condition of batch shape (3,) — a size-1 axis stretched and a missing
+axis — any `_log_prob`: the element at `[1,2]` is `_log_prob(x[1,0], condition[2])` -/
+theorem log_prob_broadcast_audit_instance (lp : Nat → Nat → Nat) :
+    ∃ out, logProbCond (X := Nat) (C := Nat) [] [] lp id ⟨[2, 1], fun i => flatIndex [2, 1] i⟩
+        (some ⟨[3], fun i => 5 + flatIndex [3] i⟩) = .ok out ∧ out.loop = [2, 3] ∧ out.elem [1, 2] = lp 1 7
+      ∧ out.elem [0, 1] = lp 0 6 := by
+  obtain ⟨out, h⟩ := (log_prob_accepts_iff (X := Nat) (C := Nat) [] [] lp id ⟨[2, 1], fun i => flatIndex [2, 1] i⟩
+    ⟨[3], fun i => 5 + flatIndex [3] i⟩).1.2 ⟨[2, 1], [3], [2, 3], rfl, rfl, by decide⟩
+  obtain ⟨xb, cb, hx, hc, hb, hall⟩ := batched_eq_elementwise_log_prob [] [] lp id _ _ out h
+  have hxb : xb = [2, 1] := by simpa using hx.symm
+  have hcb : cb = [3] := by simpa using hc.symm
+  subst hxb hcb
+  have hl : out.loop = [2, 3] := by
+    have : bcast2 [2, 1] [3] = some [2, 3] := by decide
+    rw [this] at hb; exact (Option.some.inj hb).symm
+  refine ⟨out, h, hl, ?_, ?_⟩
+  · obtain ⟨-, -, u, hu, -, he⟩ := hall [1, 2] (by rw [hl]; decide)
+    rw [logProbCond_eq [] [] [] [] lp id _ _ rfl rfl] at hu
+    cases hu
+    rw [← he]; rfl
+  · obtain ⟨-, -, u, hu, -, he⟩ := hall [0, 1] (by rw [hl]; decide)
+    rw [logProbCond_eq [] [] [] [] lp id _ _ rfl rfl] at hu
+    cases hu
+    rw [← he]; rfl
+
+/-- `gen_keys_distinct` with its `hinj` discharged, on the world / distribution object of `gen_instance` -/
+theorem gen_keys_distinct_audit_instance :
+    let W : World Nat Nat (Nat × Nat × Nat) Nat := ⟨id, fun k n j => (k.1, n, j), fun _ => false, 0, id⟩
+    let d : DistObj Nat Nat (Nat × Nat × Nat) Nat :=
+      ⟨[], some [], fun x c => match c with | .elem c => 10 * x + c | .raw _ => 0, fun k _ => k.2.2, fun k _ => (k.2.2, 0)⟩
+    ∃ keys, getSampleKeys W d (7, 0, 0) [2] (some (⟨[3, 1], fun _ => 0⟩ : Arr Nat)) = .ok keys ∧ keys.shape = [2, 3, 1, 2] ∧
+      ∀ i j, ValidIdx [2, 3, 1] i → ValidIdx [2, 3, 1] j → keys.slice i = keys.slice j → i = j := by
+  intro W d
+  exact (gen_keys_distinct W hinj_audit_instance d (7, 0, 0) [2]).2 [] [3, 1] ⟨[3, 1], fun _ => 0⟩ rfl rfl
+
+end Audit
+
 end C06
